@@ -322,9 +322,19 @@ def applyUpdate (p : Params) (s : SState) (ve : VE) (oldW newW : Nat) : SState :
   let s := moveToBackAoE s ve.info
   moveToBackWoE s ve.info
 
+/-- The weight `handle_upsert` accounts: that of the value the map holds now for this entry
+(write ops of different threads may be queued in another order than their map updates), or
+the op's own if the entry is no longer the map's (D10 repair). -/
+def currentWeight (p : Params) (s : SState) (key : Nat) (ve : VE) (newW : Nat) : Nat :=
+  if p.q.d10 then newW
+  else match AL.get? s.map key with
+    | some cur => if cur.info == ve.info then p.weigh key cur.val else newW
+    | none => newW
+
 /-- `handle_upsert`. -/
 def handleUpsert (p : Params) (s : SState) (key : Nat) (hash : UInt64) (ve : VE)
-    (oldW newW : Nat) : SState :=
+    (oldW newW0 : Nat) : SState :=
+  let newW := currentWeight p s key ve newW0
   let s := withInfo s ve.info (fun i => { i with dirty := false })
   if (getInfo s ve.info).admitted then applyUpdate p s ve oldW newW
   else if !p.q.d7 && !isCurrentEntry s key ve then s
